@@ -71,8 +71,10 @@ var keepOps = []int{OpAddBalance, OpSetNonce, OpSetState, OpSuicide, OpCreateAcc
 func H_C03_1a_EraseJournalPQ() { eraseHarness(true, false, journalOps, journalOps) }
 
 // thorough tier: any prefix operation P before the snapshot / two operations inside the reverted frame.
-func H_C03_1b_ErasePQ() { eraseHarness(true, false, allOps, allOps) }
-func H_C03_1c_EraseQQ() { eraseHarness(false, true, allOps, allOps) }
+// (all 14 x 14 pairs are 105,000 paths and 15 minutes for one harness and ran into the decision bound: the thorough
+// tier draws one of the two operations from keepOps - one representative per mechanism - and the other from all.)
+func H_C03_1b_ErasePQ() { eraseHarness(true, false, keepOps, allOps) }
+func H_C03_1c_EraseQQ() { eraseHarness(false, true, allOps, keepOps) }
 
 func eraseHarness(withP, withQ2 bool, pOps, qOps []int) {
 	// the one-operation variant explores richer initial accounts; the two-operation variants keep them plain
@@ -135,7 +137,7 @@ func H_C03_2_Nesting() {
 	accts := []*Acct{a, b}
 	verif.Assume(a.Addr != b.Addr)
 	addrs := []common.Address{a.Addr, b.Addr}
-	q1 := NewOp("Q1", allOps, addrs)
+	q1 := NewOp("Q1", keepOps, addrs)
 	q2 := NewOp("Q2", allOps, addrs)
 
 	rest := supplyRest()
